@@ -142,6 +142,10 @@ class RpcWorld(World):
                 "p_block": rng.choice([0.0, 0.0, 0.2, 0.6])}
         if rng.random() < 0.3:
             plan["client_ann"] = True       # the client attaches an annotation of its own to every request
+        if rng.random() < 0.12:
+            # a gateway's proxy: _pyroRawWireResponse hands the received message over undecoded (the harness decodes it); whose reply
+            # it is must be checked all the same
+            plan["rawwire"] = True
         if rng.random() < 0.25:
             # a second client with a proxy of its own calls concurrently and is never touched by the middlebox: on the thread
             # server two workers then decode requests and encode replies at the same time (line pre-emption inside the serializers)
@@ -340,10 +344,21 @@ class RpcWorld(World):
         calls = []
         state = {"done": False}
 
+        def unwrap(r):
+            """what a gateway does with the message a raw-wire proxy hands it: decode it with the serializer the message names"""
+            if not plan.get("rawwire") or not hasattr(r, "serializer_id") or not hasattr(r, "data"):
+                return r
+            import Pyro5.serializers as SER
+            from Pyro5 import protocol as PR
+            data = SER.serializers_by_id[r.serializer_id].loads(r.data)
+            if r.flags & PR.FLAGS_EXCEPTION:
+                raise data
+            return data
+
         def classify(fn, rec):
             rec["inv"] = sched.stamp()
             try:
-                rec["out"] = ("ok", fn())
+                rec["out"] = ("ok", unwrap(fn()))
             except StopIteration:
                 rec["out"] = ("stop",)
             except E.CommunicationError as x:
@@ -369,9 +384,15 @@ class RpcWorld(World):
             p._pyroTimeout = plan["timeout"]
             p._pyroSeq = plan["seq0"]
             budget = plan["retries"]
+            raw = bool(plan.get("rawwire"))
+            if raw:
+                p._pyroRawWireResponse = True
+                ctx.probe("rawwire_proxy")
             for i, c in enumerate(plan["calls"]):
                 tok = "t%d" % i
                 k = c["kind"]
+                if raw and k in ("batch", "stream"):
+                    k = "echo"      # (batch results and item streams are made from the decoded reply: not for a raw-wire proxy)
                 if c.get("set_retries") is not None:
                     if c["set_retries"] != budget:
                         ctx.probe("retry_budget_changed")
@@ -609,6 +630,16 @@ class RpcWorld(World):
                 if ex.get(tok, 0) > 1 + retries:
                     ctx.violate("too-many-executions", "stream", "stream open ran %d times" % ex.get(tok, 0))
             elif k == "stream-next":
+                # one next() is one call of get_next_stream_item: it resumes the server's generator once. Every resume inside this
+                # call's interval is an execution of it (nobody else fetches from this stream).
+                resumed = sum(1 for (_st, kind, t) in log.values()
+                              if kind == "item" and str(t).startswith(tok + "#") and rec["inv"] < _st < rec["ret"])
+                if resumed > 1 + retries:
+                    ctx.violate("too-many-executions", "stream-next", "fetch %d of stream %s resumed the server's generator %d times with a "
+                                "retry budget of %d" % (rec["j"], tok, resumed, retries))
+                elif tag == "ok" and retries == 0 and resumed != 1:
+                    ctx.violate("returned-call-not-once", "stream-next", "fetch %d of stream %s returned an item but the server's generator "
+                                "was resumed %d times for it (an item is lost or made up)" % (rec["j"], tok, resumed))
                 if tag == "ok":
                     ctx.probe("stream_item")
                     v = out[1]
